@@ -22,6 +22,8 @@ def make_cases_for(tier, seed):
                         G.programs(G.TINY, 4, 3, seed, ("none",), min_n=4, compatible_cases=True))
         yield from (((("A",) + cid), p) for cid, p in G.chain_programs(seed, compatible_cases=True, big=not quick))
         yield from (((("A",) + cid), p) for cid, p in gen_forms.form_programs())
+        yield from (((("A",) + cid), p) for cid, p in G.length_programs(seed, compatible_cases=True, max_len=6 if quick else 9))
+        yield from (((("A",) + cid), p) for cid, p in G.switch_programs(seed, compatible_cases=True, big=not quick))
         # (B) other layouts of flow graphs: all well-formed routine sets
         for iv, shape in enumerate(GS.shapes(SSB_KINDS_QUICK, 3 if quick else 4, 2, wellformed=True)):
             yield ("B", iv % 5 if iv % 11 else 99, shape), shape
@@ -36,7 +38,9 @@ def rule_text(tier):
     quick = tier == "quick"
     return ("inputs: (A) compile(p) for every p of G-prog (FULL alphabet N<=2 x second-routine variants, "
             + ("REDUCED N=3" if quick else "FULL N=3, TINY N=4") + "; all if/elseif/else chains with 2-3 branches whose blocks are "
-            "empty / plain / leave the routine / jump behind the chain, or-groups of 1-3 conditions; G-forms) and (B) every well-formed G-ssb routine set with <= "
+            "empty / plain / leave the routine / jump behind the chain, or-groups of 1-3 conditions; G-forms; G-lengths: a switch / if whose two "
+            "branch bodies have 0..2 against 0.." + ("6" if quick else "9") + " ops, as body of or in front of / behind forever / while / for loops (7 block kinds x 10 placements); G-switch: every switch with 3 "
+            + ("" if quick else "(and 4) ") + "cases x 7 body kinds per case (break only, op + break, op + return, jump behind the switch, fall through ..) x default none / last / grouped) and (B) every well-formed G-ssb routine set with <= "
             + ("3" if quick else "4") + " ops in <= 2 routines over {op, branch, jump, return, end, call, switch, case} (every jump "
             "target, every split, unreachable ops, cross-routine jumps, routines starting with a Jump), single routines with "
             + ("4" if quick else "4-5") + " ops over {op, branch, jump, end}, and sets with context ops / hold")
